@@ -14,14 +14,40 @@ use std::time::Duration;
 const LEX: &str = "%%\na 'a'\nb 'b'\nc 'c'\n[ \\t\\n]+ ;\n";
 type LT = DefaultLexerTypes<u32>;
 
+/// can some rule derive just itself (A =>+ A)?
+fn cyclic(grm: &YaccGrammar<u32>) -> bool {
+    use cfgrammar::{RIdx, Symbol};
+    let firsts = grm.firsts();
+    let n = usize::from(grm.rules_len());
+    let mut reach = vec![vec![false; n]; n];
+    for p in grm.iter_pidxs() {
+        let a = usize::from(grm.prod_to_rule(p));
+        let prod = grm.prod(p);
+        for (i, sym) in prod.iter().enumerate() {
+            if let Symbol::Rule(b) = sym {
+                let others_nullable = prod.iter().enumerate().all(|(j, s)| j == i || matches!(s, Symbol::Rule(r) if firsts.is_epsilon_set(*r)));
+                if others_nullable { reach[a][usize::from(*b)] = true; }
+            }
+        }
+    }
+    for k in 0..n { for i in 0..n { for j in 0..n { if reach[i][k] && reach[k][j] { reach[i][j] = true; } } } }
+    let _ = RIdx(0u32);
+    (0..n).any(|i| reach[i][i])
+}
+
 fn once(gsrc: String, input: String, cost: u8) -> Result<String, String> {
     let grm = YaccGrammar::<u32>::new_with_storaget(YaccKind::Original(YaccOriginalActionKind::GenericParseTree), &gsrc).map_err(|_| "grammar".to_string())?;
+    if cyclic(&grm) { return Err("grammar".into()); } // the property excludes grammars in which a rule can derive just itself
     let (_, stable) = from_yacc(&grm, Minimiser::Pager).map_err(|_| "table".to_string())?;
+    // with conflicts settled by the default rules plain LR parsing itself can loop (hidden left recursion, e.g.
+    // S: | A A 'b'; A: S S | ..): outside what this sweep judges
+    if stable.conflicts().is_some() { return Err("grammar".into()); }
     let mut lexerdef = LRNonStreamingLexerDef::<LT>::from_str(LEX).map_err(|_| "lexer".to_string())?;
     let ids: std::collections::HashMap<&str, u32> = grm.tokens_map().into_iter().map(|(k, v)| (k, u32::from(v))).collect();
     lexerdef.set_rule_ids(&ids);
     let lexer = lexerdef.lexer(&input);
-    let nlex = lexer.iter().count();
+    let starts: Vec<usize> = lexer.iter().filter_map(|l| l.ok()).map(|l| l.span().start()).collect();
+    let nlex = starts.len();
     let costf = move |_: TIdx<u32>| cost;
     let pb = RTParserBuilder::new(&grm, &stable).recoverer(RecoveryKind::CPCTPlus).term_costs(&costf);
     #[allow(deprecated)]
@@ -38,7 +64,16 @@ fn once(gsrc: String, input: String, cost: u8) -> Result<String, String> {
                     LexParseError::LexError(_) => return Ok("lex error".into()),
                     LexParseError::ParseError(pe) => {
                         let pos = pe.lexeme().span().start();
-                        if let Some(l) = last { if pos <= l && !(pos == l && pe.lexeme().span().len() == 0) { return Err(format!("error {} at byte {} does not lie after the previous one at byte {}", k, pos, l)); } }
+                        if let Some(l) = last {
+                            if pos <= l {
+                                let all: Vec<String> = errs.iter().map(|e| match e { LexParseError::ParseError(pe) => format!("byte {} len {} state {} repairs {:?}", pe.lexeme().span().start(), pe.lexeme().span().len(), usize::from(pe.stidx()), pe.repairs().iter().map(|r| r.iter().map(|x| match x { lrpar::ParseRepair::Insert(t) => format!("Ins {}", grm.token_name(*t).unwrap_or("?")), lrpar::ParseRepair::Delete(l) => format!("Del@{}", l.span().start()), lrpar::ParseRepair::Shift(l) => format!("Sh@{}", l.span().start()) }).collect::<Vec<_>>().join(",")).collect::<Vec<_>>()), _ => "lex".into() }).take(4).collect();
+                                return Err(format!("error {} at byte {} does not lie after the previous one at byte {} [{}]", k, pos, l, all.join("; ")));
+                            }
+                            // at least three real lexemes (or the rest of the input) beyond the previous error
+                            let li = starts.iter().position(|&s| s == l).unwrap_or(nlex);
+                            let pi = starts.iter().position(|&s| s == pos).unwrap_or(nlex);
+                            if pi < li + 3 && pi < nlex { return Err(format!("error {} is at lexeme {}, fewer than three lexemes after the previous error at lexeme {}", k, pi, li)); }
+                        }
                         last = Some(pos);
                         if pe.repairs().is_empty() { all_rep = false; if k + 1 != n { return Err(format!("error {} of {} has no repair sequence but is not the last", k, n)); } }
                     }
@@ -83,6 +118,20 @@ pub fn search(_tag: &str, tier: &str) -> Option<Value> {
                     if o.fails { return Some(witness("c07_recover", json!({"grammar": g, "input": input, "cost": cost}), &o)); }
                 }
             }
+        }
+    }
+    // random small grammars over a, b, c (with %avoid_insert / precedence-free) and random token strings
+    let n = if tier == "thorough" { 3000 } else { 300 };
+    let mut r = crate::grms::Rng(0x2545F4914F6CDD1D);
+    for seed in 1..=n {
+        let mut g = crate::grms::random(seed);
+        if g.contains("%left") || g.contains("%right") || g.contains("%nonassoc") { continue; }
+        if r.below(3) == 0 { g = g.replacen("%%", &format!("%avoid_insert '{}'\n%%", ["a", "b", "c"][r.below(3)]), 1); }
+        for _ in 0..6 {
+            let l = 1 + r.below(7);
+            let input: String = (0..l).map(|_| ["a ", "b ", "c "][r.below(3)]).collect();
+            let o = run(&g, &input, 1);
+            if o.fails { return Some(witness("c07_recover", json!({"grammar": g, "input": input, "cost": 1}), &o)); }
         }
     }
     None
